@@ -510,6 +510,10 @@ func fileRedirPort(mode parse.RedirMode, f *os.File) *Port {
 	}
 }
 
+// The largest FD that can be used in a redirection. The port table of a frame
+// is a slice indexed by FD, so an unbounded FD would make it arbitrarily large.
+const maxRedirFD = 1023
+
 func evalForFd(fm *Frame, op valuesOp, closeOK bool, what string) (int, error) {
 	value, err := evalForValue(fm, op, what)
 	if err != nil {
@@ -525,6 +529,9 @@ func evalForFd(fm *Frame, op valuesOp, closeOK bool, what string) (int, error) {
 	}
 	var fd int
 	if vals.ScanToGo(value, &fd) == nil {
+		if fd < 0 || fd > maxRedirFD {
+			return -1, fm.errorp(op, InvalidFD{FD: fd})
+		}
 		return fd, nil
 	} else if value == "-" && closeOK {
 		return -1, nil
